@@ -163,7 +163,7 @@ class StrFlow:
                 src = self._group_of(f.value, g)
                 if src is not None:
                     return src
-            if isinstance(f, ast.Attribute) and f.attr == 'get' and e.args and isinstance(e.args[0], (ast.Constant, ast.BinOp)):
+            if isinstance(f, ast.Attribute) and f.attr == 'get' and e.args and isinstance(e.args[0], (ast.Constant, ast.BinOp, ast.IfExp, ast.Name)):
                 # mdict.get('nth' + postfix)
                 src = self._group_of(f.value, unparse(e.args[0]))
                 if src is not None:
@@ -246,6 +246,35 @@ class StrFlow:
             if target in self.src.mods and f.attr in self.src.mods[target].functions:
                 return self.src.mods[target], self.src.mods[target].functions[f.attr], None
         return None
+
+
+def caller_bindings(src: SourceModel, mod: Module, fn: ast.FunctionDef, cls: str | None) -> dict:
+    """Provenance of the text parameters of a private helper, from the arguments of its call sites in the same class
+    (or module): param name -> set[Prov]. Only parameters that receive text derived from match groups are bound."""
+    out: dict[str, set] = {}
+    params = [a.arg for a in fn.args.args]
+    text_params = {a.arg for a in fn.args.args if a.annotation is not None and unparse(a.annotation) in ('str', 'str | None')}
+    if params and params[0] in ('self', 'cls'):
+        params = params[1:]
+    if not text_params:
+        return out
+    for q, g in mod.functions.items():
+        if g is fn or (cls and not q.startswith(cls + '.')) or (not cls and '.' in q):
+            continue
+        sites = [c for c in ast.walk(g) if isinstance(c, ast.Call) and (
+            (cls and isinstance(c.func, ast.Attribute) and c.func.attr == fn.name and isinstance(c.func.value, ast.Name)
+             and c.func.value.id in ('self', 'cls')) or (not cls and isinstance(c.func, ast.Name) and c.func.id == fn.name))]
+        if not sites:
+            continue
+        flow = StrFlow(src, mod, g, cls, depth=2)
+        for c in sites:
+            for pn, a in list(zip(params, c.args)) + [(k.arg, k.value) for k in c.keywords if k.arg]:
+                if pn not in text_params:
+                    continue
+                ps = flow.prov(a)
+                if ps:
+                    out.setdefault(pn, set()).update(ps)
+    return out
 
 
 # ---- reaching definitions (structural, per use site) ------------------------------------------------------------
